@@ -189,7 +189,8 @@ def u2_files(sc, root: str) -> dict:
         n = nm[t]
         if sc["kind"] == "function":
             return f"def {n}(from_d{t}: int) -> int:\n    ...\n"
-        return f"class {n}:\n    def m_d{t}(self) -> int:\n        ...\n\n    def _helper{s}(self) -> int:\n        ...\n"
+        base = "(Exception)" if sc.get("variant") == "exccls" and t == 1 else ""
+        return f"class {n}{base}:\n    def m_d{t}(self) -> int:\n        ...\n\n    def _helper{s}(self) -> int:\n        ...\n"
     files = {f"{sid}/__init__.py": "", f"{sid}/sub/__init__.py": "", f"{sid}/sub/deep/__init__.py": "", f"{sid}/other/__init__.py": "",
              f"{sid}/other/fill.py": "def fill" + s + "() -> int:\n    ...\n",
              f"{sid}/sub/deep/{nm['m1']}.py": decl(1), f"{sid}/sub/{nm['m2']}.py": decl(2)}
